@@ -121,6 +121,27 @@ func VX_C14_Races(args []int) {
 		defer func() {
 			vxAssert(string(c1.InputMeta().Peek("tag")) == "first", "[C01] a completed call keeps the metadata of its own reply while later replies arrive")
 		}()
+	case 14: // raw pushes from two goroutines after a pre-session call failed while writing
+		vxRaceDetect(false)
+		vxPoolMode(1)
+		bad := newVxConn("srv:1", "gone:9")
+		ops := &vxPreOps{op: 0, fail: true, conn: bad}
+		vxNewPeer(ops).ServeConn(bad)
+		vxAssert(ops.ran && !ops.stat.OK(), "[C20] the failing pre-session call is reported to its hook")
+		vxRaceDetect(true)
+		conn.onWrite = func([]byte) { vxHandoff() } // a write takes time: the other goroutine runs meanwhile
+		run(func() { s.(*session).RawPush("/a", []byte("from-a")) })
+		run(func() { s.(*session).RawPush("/c", []byte("from-c")) })
+		n = 2
+		defer func() {
+			got := map[string]string{}
+			for _, w := range conn.writes {
+				if m, err := vxParse(w); err == nil && m.Mtype() == TypePush {
+					got[m.ServiceMethod()] = string(vxBodyOf(m))
+				}
+			}
+			vxAssert(conn.nWrites() == 2 && got["/a"] == "from-a" && got["/c"] == "from-c", "[C01] pushes issued from two goroutines both go out, each with its own method and body")
+		}()
 	case 6: // call vs remote close
 		run(func() { s.AsyncCall("/a", []byte("1"), new([]byte), make(chan CallCmd, 1)) })
 		conn.end()
